@@ -589,9 +589,17 @@ def scanalloc_obs():
                note='every occupant (empty / deleted with any hash / file block) per position, first free position, new blocks with or without inherited hash, rehash pending per position, past hashes sanitised or not')]
 
 
+SCAN_REMOVED = dict(region='scan_removed', file='cmdline/scan.c', begin='/* check for removed files */', end='/* sort the files before inserting them */', max_lines=70, expect_loops=3,
+                    proto='static void region_scan_removed(struct snapraid_scan *scan, struct snapraid_disk *disk, int is_diff)', prologue='\ttommy_node *node;\n\tchar esc_buffer[ESC_MAX];', epilogue='\t(void)esc_buffer;')
+
+
 def scanfile_obs():
     F = 'harness/h_scanfile.c'
-    return [Ob('scan.link', F, 'h_scan_link', inject=[SCAN_FILE, SCAN_EMPTYDIR, SCAN_LINK], defs={'VERIF_SCANLINK': None}, unwind=6, small_path=True, timeout=600, mem=6, cost=3, replay=False,
+    return [Ob('scan.removed.region', F, 'h_scan_removed', inject=[SCAN_FILE, SCAN_EMPTYDIR, SCAN_LINK, SCAN_REMOVED], defs={'VERIF_REMOVED': None}, unwind=6, small_path=True, timeout=600, mem=6, cost=4, replay=False, kind='bounded',
+               bound='at most 3 recorded files, 3 links and 3 empty directories on the disk',
+               functions=['state_diffscan: region "check for removed files" .. "sort the files before inserting them" (cmdline/scan.c, extracted mechanically)'],
+               note='every present / not present pattern, sync and diff; scan_file_remove / scan_link_remove / scan_emptydir_remove by recording stub'),
+            Ob('scan.link', F, 'h_scan_link', inject=[SCAN_FILE, SCAN_EMPTYDIR, SCAN_LINK], defs={'VERIF_SCANLINK': None}, unwind=6, small_path=True, timeout=600, mem=6, cost=3, replay=False,
                functions=['scan_link (cmdline/scan.c; whole body extracted mechanically, callees routed to stubs)'], note='recorded or new link, same / different target, symbolic / hard link then and now, sync and diff'),
             Ob('scan.emptydir', F, 'h_scan_emptydir', inject=[SCAN_FILE, SCAN_EMPTYDIR, SCAN_LINK], defs={'VERIF_EMPTYDIR': None}, unwind=6, small_path=True, timeout=600, mem=6, cost=3, replay=False,
                functions=['scan_emptydir (cmdline/scan.c; whole body extracted mechanically, callees routed to stubs)'], note='recorded or new directory, every value of the seven change counters'),
